@@ -536,6 +536,8 @@ def sym_attr(interp, o, name, fr, node):
 # =============================================================================== isinstance
 def py_kind(v):
     """the Python type a symbolic value stands for"""
+    if isinstance(v, SOpt):
+        raise Undecided("py_kind of an optional (resolve its None-ness first)")
     if isinstance(v, SBool):
         return bool
     if isinstance(v, SInt):
@@ -676,6 +678,9 @@ def m_type(interp, fr, *args):
     if len(args) == 1 and isinstance(args[0], (Sink, Source)):
         interp.ctx.effects.append(("iface", f"type({args[0].name})", "type test on the stream parameter"))
         raise IfaceViolation("IFACE: behaviour depends on the kind of stream (type(buffer))")
+    if len(args) == 1 and isinstance(args[0], SOpt):
+        v = resolve_opt(interp.ctx, args[0])          # a path decision: None or the value
+        return type(None) if v is None else (py_kind(v) if isinstance(v, Sym) else type(v))
     if len(args) == 1 and isinstance(args[0], Sym):
         return py_kind(args[0])
     return type(*args)
@@ -1038,6 +1043,8 @@ def m_bytes(interp, fr, *args, **kw):
     v = args[0]
     if isinstance(v, SBytes):
         return v
+    if type(v).__name__ == "SByteArray":
+        return SBytes(list(v.segs))          # an immutable copy of what the bytearray holds now
     if isinstance(v, (tuple, list)):
         segs = []
         for x in v:
@@ -1062,6 +1069,25 @@ class SByteArray(Sym):
 
     def length(self):
         return total_len(normalise(self.segs))
+
+    def kvc_getattr(self, interp, name, fr, node):
+        from .core import Byte
+        if name == "append":
+            def append(x):
+                if isinstance(x, bool) or not isinstance(x, (int, SInt)):
+                    raise PyRaise(TypeError, "an integer is required")
+                t = zint(x)
+                if not interp.ctx.decide(z3.And(t >= 0, t <= 255)):
+                    raise PyRaise(ValueError, "byte must be in range(0, 256)")
+                self.segs = tuple(self.segs) + ((Lit(bytes([x])),) if isinstance(x, int) else (Byte(z3.simplify(t)),))
+                return None
+            return SymMethod(append, "append")
+        if name == "extend":
+            def extend(b):
+                self.segs = tuple(self.segs) + tuple(as_bytes(b) if not isinstance(b, SByteArray) else b.segs)
+                return None
+            return SymMethod(extend, "extend")
+        raise Undecided(f"bytearray.{name} is not modelled")
 
 
 def m_bytearray(interp, fr, *args):
